@@ -89,8 +89,9 @@ def run(ctx):
     if ctx.quick:
         algs = PAIRS[ctx.seed % 3]
         # shard 0 starts with the six ARCOUNT-boundary messages (254..257, 511, 512 additional records, valid window)
-        jobs = [lambda k=k: pipeline(ctx, binp, str(k), ctx.seed * 1000 + k, 20, algs, ar=(k == 0)) for k in range(2)]
-        vp.parallel(jobs, maxpar=2)
+        # (pipeline 0 is just those nine fixed messages; 1 and 2 are 16 random messages each: every window kind twice)
+        jobs = [lambda k=k: pipeline(ctx, binp, str(k), ctx.seed * 1000 + k, 9 if k == 0 else 16, algs, ar=(k == 0)) for k in range(3)]
+        vp.parallel(jobs, maxpar=3)
     else:
         jobs = [lambda k=k: pipeline(ctx, binp, str(k), ctx.seed * 1000 + k, 50, ALL, ar=(k % 4 == 0)) for k in range(12)]
         vp.parallel(jobs, maxpar=4)
